@@ -101,12 +101,11 @@ def time_from_serialnumber_with_microseconds(serialnumber):
 
 
 def time_from_serialnumber(serialnumber):
-    at_hours = (serialnumber + MICROSECOND) * 24
-    hours = math.floor(at_hours)
-    at_mins = (at_hours - hours) * 60
-    mins = math.floor(at_mins)
-    secs = (at_mins - mins) * 60
-    return hours % 24, mins, int(round(secs - 1.1E-6, 0))
+    # round to whole seconds first, so that 59.6 seconds carry into the minute
+    secs = int(round(serialnumber % 1 * 86400 - 1E-7, 0))
+    mins, secs = divmod(secs, 60)
+    hours, mins = divmod(mins, 60)
+    return hours % 24, mins, secs
 
 
 def is_leap_year(year):
